@@ -167,6 +167,15 @@ def systematic(tier):
             out.append({"observers": [{"id": 0, "con": True, "t": 0.1, "reactions": ["ack"] * 12},
                                       {"id": 1, "con": False, "t": 0.2, "reactions": ["ack"] * 12}],
                         "ops": ops, "net": {}})
+    # an error response handed over while a rendering is under way, replaced by a later change before the notification
+    # loop came round (coalesced: nothing has to end) / not replaced (the registration ends)
+    for con in (True, False):
+        for later in (1.511, 1.56, None):
+            ops = [{"op": "change", "t": 1.501, "n": 1}, {"op": "error_notify", "t": 1.5038}]
+            if later is not None:
+                ops.append({"op": "change", "t": later, "n": 1})
+            out.append({"observers": [{"id": 0, "con": con, "t": 0.9, "reactions": ["ack"] * 12}], "ops": ops, "net": {},
+                        "render_delay": 0.05})
     return out
 
 
@@ -416,6 +425,7 @@ def execute(sim, scn):
         v0 = [d for d in sim.draws["tm"].log if d[0] == "randint"][0][3]
         observers[own[0]["observer"]].token = ((v0 + 1) % (2 ** 64)).to_bytes(8, "big").lstrip(b"\0")
     global_ends = []  # (t, kind, observer id or None)
+    err_before_change = {}  # instant of an error_notify op -> number of changes reported before it
     shutdown_done = []
 
     def do(op):
@@ -436,6 +446,7 @@ def execute(sim, scn):
             counter.change()
         elif k == "error_notify":
             global_ends.append((loop.now, "error_notification", None))
+            err_before_change[loop.now] = len(counter.changes)
             counter.updated_state(Message(code=aiocoap.NOT_FOUND, payload=b"gone"))
         elif k == "last_notify":
             global_ends.append((loop.now, "last_notification", None))
@@ -628,6 +639,18 @@ def execute(sim, scn):
                     if t < t1 + TOL:
                         ends.append((max(t, t0), kind))
                     continue
+                if kind == "error_notification" and not reg["cancelled"]:
+                    # the message handed to updated_state() sits in the registration's one-place, lossy trigger slot
+                    # until the notification loop comes round (at the latest when a rendering under way is finished);
+                    # a change reported meanwhile replaces it -- "earlier ones may be coalesced" -- and the resource is
+                    # rendered afresh: no unsuccessful notification ever existed, nothing has to end
+                    k0 = err_before_change.get(t, len(counter.changes))
+                    rd_ = scn.get("render_delay") or 0
+                    busy_until = max([r_["t"] + rd_ for r_ in renders if r_["remote"] == tuple(E[:2]) and r_["token"] == T
+                                      and r_["t"] <= t + TOL and r_["t"] + rd_ >= t - TOL] or [t])
+                    if any(tc <= busy_until + TOL for tc in counter.changes[k0:]):
+                        sim.probe("error_notification_superseded_by_change")
+                        continue
                 if t0 - TOL <= t < t1 + TOL:
                     ends.append((t, kind))
             for e in sent_all:
